@@ -14,12 +14,20 @@ def Op.isData : Op → Bool
   | .insert _ _ | .delete _ _ | .compact _ | .vacuum => true
   | _ => false
 
+/-- rows an INSERT adds to table `tid`: its rows if the statement names that table and passes the
+NOT NULL check, nothing otherwise (a rejected statement changes nothing) -/
+def insAdds (c : Catalog) (tbl : List (Nat × TableDef)) (tid : Nat) (n : String) (parts : List (List Row)) : List Row :=
+  if resolve c n = some tid then
+    match lookup tid tbl with
+    | some d => if rowsOk d parts.flatten then parts.flatten else []
+    | none => []
+  else []
+
 /-- what the specification says table `tid` holds after the statements (a plain list: rows
 appended by INSERT, filtered by DELETE; compaction and vacuum do nothing) -/
 def tidSpec (c : Catalog) (tbl : List (Nat × TableDef)) (tid : Nat) : List Op → List Row → List Row
   | [], rows => rows
-  | .insert n parts :: ops, rows =>
-      tidSpec c tbl tid ops (if resolve c n = some tid ∧ (lookup tid tbl).isSome then rows ++ parts.flatten else rows)
+  | .insert n parts :: ops, rows => tidSpec c tbl tid ops (rows ++ insAdds c tbl tid n parts)
   | .delete n p :: ops, rows =>
       tidSpec c tbl tid ops (if resolve c n = some tid then rows.filter (fun r => !p r) else rows)
   | _ :: ops, rows => tidSpec c tbl tid ops rows
@@ -31,10 +39,7 @@ theorem tidSpec_perm (c : Catalog) (tbl : List (Nat × TableDef)) (tid : Nat) : 
     cases op with
     | insert n parts =>
       simp only [tidSpec]
-      apply tidSpec_perm
-      split
-      · exact h.append_right _
-      · exact h
+      exact tidSpec_perm c tbl tid ops _ _ (h.append_right _)
     | delete n p =>
       simp only [tidSpec]
       apply tidSpec_perm
@@ -43,127 +48,100 @@ theorem tidSpec_perm (c : Catalog) (tbl : List (Nat × TableDef)) (tid : Nat) : 
       · exact h
     | _ => simp only [tidSpec]; exact tidSpec_perm c tbl tid ops a b h
 
-/-- every INSERT of the history puts no NULL into a NOT NULL column (the forced hypothesis: the
-non-nullable encodings store the type's default instead) -/
-def RowsFit (c : Catalog) (tbl : List (Nat × TableDef)) : List Op → Prop
-  | [] => True
-  | .insert n parts :: ops =>
-      (∀ tid d, resolve c n = some tid → lookup tid tbl = some d → ∀ r ∈ parts.flatten, storeRow d.cols r = r)
-        ∧ RowsFit c tbl ops
-  | _ :: ops => RowsFit c tbl ops
-
 theorem map_id_of_forall {α} (f : α → α) : ∀ l : List α, (∀ x ∈ l, f x = x) → l.map f = l
   | [], _ => rfl
   | x :: l, h => by simp [h x (by simp), map_id_of_forall f l (fun y hy => h y (by simp [hy]))]
 
-/-- **Theorem S for data statements**: after any history of INSERT (any partition into row-sets) /
-DELETE / compaction passes (any selections) / vacuum passes over a fixed catalog, every table
-scans to a permutation of exactly the rows inserted and not since deleted. -/
+/-- **Theorem S for data statements**: after any history of INSERT (any partition into row-sets;
+rejected as a whole when it would put NULL into a NOT NULL column) / DELETE / compaction passes
+(any selections) / vacuum passes over a fixed catalog, every table scans to a permutation of
+exactly the rows inserted and not since deleted. -/
 theorem data_history_exact : ∀ (h : List Op) (s : Store), Wf s → (∀ op ∈ h, op.isData = true) →
-    RowsFit s.cat s.tables h →
     ∃ s', run (.up s) h = .up s' ∧ Wf s' ∧ s'.cat = s.cat ∧ s'.tables = s.tables ∧
       ∀ tid, (s'.scan tid).Perm (tidSpec s.cat s.tables tid h (s.scan tid))
-  | [], s, wf, _, _ => ⟨s, rfl, wf, rfl, rfl, fun _ => List.Perm.refl _⟩
-  | op :: ops, s, wf, hd, hfit => by
+  | [], s, wf, _ => ⟨s, rfl, wf, rfl, rfl, fun _ => List.Perm.refl _⟩
+  | op :: ops, s, wf, hd => by
     have hd' : ∀ o ∈ ops, o.isData = true := fun o ho => hd o (by simp [ho])
+    -- a statement that changes nothing
+    have hsame : ∀ (o : Out), step (.up s) op = (.up s, o) → (∀ tid, tidSpec s.cat s.tables tid (op :: ops) (s.scan tid)
+        = tidSpec s.cat s.tables tid ops (s.scan tid)) →
+        ∃ s', run (.up s) (op :: ops) = .up s' ∧ Wf s' ∧ s'.cat = s.cat ∧ s'.tables = s.tables ∧
+          ∀ tid, (s'.scan tid).Perm (tidSpec s.cat s.tables tid (op :: ops) (s.scan tid)) := by
+      intro o hstep hspec
+      obtain ⟨s', r1, r2, r3, r4, r5⟩ := data_history_exact ops s wf hd'
+      exact ⟨s', by simp [run, hstep, r1], r2, r3, r4, fun tid => by rw [hspec tid]; exact r5 tid⟩
+    -- a statement that changes the store, catalog and tables staying put
+    have hmove : ∀ (s1 : Store), (step (.up s) op).1 = .up s1 → Wf s1 → s1.cat = s.cat → s1.tables = s.tables →
+        (∀ tid, (s1.scan tid).Perm (tidSpec s.cat s.tables tid [op] (s.scan tid))) →
+        ∃ s', run (.up s) (op :: ops) = .up s' ∧ Wf s' ∧ s'.cat = s.cat ∧ s'.tables = s.tables ∧
+          ∀ tid, (s'.scan tid).Perm (tidSpec s.cat s.tables tid (op :: ops) (s.scan tid)) := by
+      intro s1 hstep w1 c1 t1 hp
+      obtain ⟨s', r1, r2, r3, r4, r5⟩ := data_history_exact ops s1 w1 hd'
+      refine ⟨s', by simp only [run, hstep]; exact r1, r2, r3.trans c1, r4.trans t1, ?_⟩
+      intro tid
+      rw [c1, t1] at r5
+      have hcons : tidSpec s.cat s.tables tid (op :: ops) (s.scan tid)
+          = tidSpec s.cat s.tables tid ops (tidSpec s.cat s.tables tid [op] (s.scan tid)) := by
+        cases op <;> simp [tidSpec]
+      rw [hcons]
+      exact (r5 tid).trans (tidSpec_perm _ _ _ ops _ _ (hp tid))
     cases op with
     | insert n parts =>
-      obtain ⟨hf1, hf2⟩ := hfit
       cases h1 : s.tableId? n with
       | none =>
-        have hstep : step (.up s) (.insert n parts) = (.up s, .err "no-table") := by
-          simp [step, stepUp, Store.insert, h1]
-        obtain ⟨s', r1, r2, r3, r4, r5⟩ := data_history_exact ops s wf hd' hf2
-        refine ⟨s', by simp [run, hstep, r1], r2, r3, r4, ?_⟩
+        apply hsame (.err "no-table") (by simp [step, stepUp, Store.insert, h1])
         intro tid
-        have : ¬ (resolve s.cat n = some tid ∧ (lookup tid s.tables).isSome = true) := by
-          rw [← tableId?_eq, h1]; simp
-        simp only [tidSpec, this, if_false]
-        exact r5 tid
+        simp [tidSpec, insAdds, ← tableId?_eq, h1]
       | some t =>
         cases h2 : lookup t s.tables with
         | none =>
-          have hstep : step (.up s) (.insert n parts) = (.up s, .err "no-table") := by
-            simp [step, stepUp, Store.insert, h1, h2]
-          obtain ⟨s', r1, r2, r3, r4, r5⟩ := data_history_exact ops s wf hd' hf2
-          refine ⟨s', by simp [run, hstep, r1], r2, r3, r4, ?_⟩
+          apply hsame (.err "no-table") (by simp [step, stepUp, Store.insert, h1, h2])
           intro tid
-          have : ¬ (resolve s.cat n = some tid ∧ (lookup tid s.tables).isSome = true) := by
-            rw [← tableId?_eq, h1]
-            rintro ⟨e, h⟩
-            have : t = tid := by simpa using e
-            subst this; simp [h2] at h
-          simp only [tidSpec, this, if_false]
-          exact r5 tid
+          simp only [tidSpec, insAdds, ← tableId?_eq, h1]
+          by_cases ht : t = tid
+          · subst ht; simp [h2]
+          · simp [ht]
         | some d =>
-          obtain ⟨w1, c1, t1, _, p1, p2⟩ := insert_scan s wf n parts t d h1 h2
-          have hfit' : RowsFit (s.insert n parts).1.cat (s.insert n parts).1.tables ops := by rw [c1, t1]; exact hf2
-          obtain ⟨s', r1, r2, r3, r4, r5⟩ := data_history_exact ops _ w1 hd' hfit'
-          refine ⟨s', by simp only [run, step, stepUp]; exact r1, r2, r3.trans c1, r4.trans t1, ?_⟩
-          intro tid
-          rw [c1, t1] at r5
-          refine (r5 tid).trans (tidSpec_perm _ _ _ ops _ _ ?_)
-          by_cases ht : tid = t
-          · subst ht
-            have hc : resolve s.cat n = some tid ∧ (lookup tid s.tables).isSome = true := by
-              rw [← tableId?_eq, h1, h2]; simp
-            simp only [hc, and_self, if_true]
-            have hmap : parts.flatten.map (storeRow d.cols) = parts.flatten :=
-              map_id_of_forall _ _ (hf1 tid d hc.1 h2)
-            rw [hmap] at p1
-            exact p1
-          · have hc : ¬ (resolve s.cat n = some tid ∧ (lookup tid s.tables).isSome = true) := by
-              rw [← tableId?_eq, h1]
-              rintro ⟨e, _⟩
-              exact ht (by simpa using e.symm)
-            simp only [hc, if_false]
-            rw [p2 tid ht]
+          cases hok : rowsOk d parts.flatten with
+          | false =>
+            apply hsame (.err "not-null") (by simp [step, stepUp, insert_rejected s n parts t d h1 h2 hok])
+            intro tid
+            simp only [tidSpec, insAdds, ← tableId?_eq, h1]
+            by_cases ht : t = tid
+            · subst ht; simp [h2, hok]
+            · simp [ht]
+          | true =>
+            obtain ⟨w1, c1, t1, _, p1, p2⟩ := insert_scan s wf n parts t d h1 h2 hok
+            apply hmove (s.insert n parts).1 rfl w1 c1 t1
+            intro tid
+            simp only [tidSpec, insAdds, ← tableId?_eq, h1]
+            by_cases ht : t = tid
+            · subst ht; simp only [if_true, h2, hok]; exact p1
+            · have : ¬ (some t = some tid) := by simpa using ht
+              simp only [this, if_false, List.append_nil]
+              rw [p2 tid (fun h => ht h.symm)]
     | delete n p =>
       cases h1 : s.tableId? n with
       | none =>
-        have hstep : step (.up s) (.delete n p) = (.up s, .err "no-table") := by
-          simp [step, stepUp, Store.delete, h1]
-        obtain ⟨s', r1, r2, r3, r4, r5⟩ := data_history_exact ops s wf hd' hfit
-        refine ⟨s', by simp [run, hstep, r1], r2, r3, r4, ?_⟩
+        apply hsame (.err "no-table") (by simp [step, stepUp, Store.delete, h1])
         intro tid
-        have : ¬ (resolve s.cat n = some tid) := by rw [← tableId?_eq, h1]; simp
-        simp only [tidSpec, this, if_false]
-        exact r5 tid
+        simp [tidSpec, ← tableId?_eq, h1]
       | some t =>
         obtain ⟨w1, c1, t1, _, p1, p2⟩ := delete_scan s wf n p t h1
-        have hfit' : RowsFit (s.delete n p).1.cat (s.delete n p).1.tables ops := by rw [c1, t1]; exact hfit
-        obtain ⟨s', r1, r2, r3, r4, r5⟩ := data_history_exact ops _ w1 hd' hfit'
-        refine ⟨s', by simp only [run, step, stepUp]; exact r1, r2, r3.trans c1, r4.trans t1, ?_⟩
+        apply hmove (s.delete n p).1 rfl w1 c1 t1
         intro tid
-        rw [c1, t1] at r5
-        refine (r5 tid).trans (tidSpec_perm _ _ _ ops _ _ ?_)
-        by_cases ht : tid = t
-        · subst ht
-          have hc : resolve s.cat n = some tid := by rw [← tableId?_eq, h1]
-          simp only [hc, if_true]
-          rw [p1]
-        · have hc : ¬ (resolve s.cat n = some tid) := by
-            rw [← tableId?_eq, h1]; intro e; exact ht (by simpa using e.symm)
-          simp only [hc, if_false]
-          rw [p2 tid ht]
+        simp only [tidSpec, ← tableId?_eq, h1]
+        by_cases ht : t = tid
+        · subst ht; simp only [if_true]; rw [p1]
+        · have : ¬ (some t = some tid) := by simpa using ht
+          simp only [this, if_false]
+          rw [p2 tid (fun h => ht h.symm)]
     | compact plan =>
       obtain ⟨w1, c1, t1, p1⟩ := compact_scan plan s wf
-      have hfit' : RowsFit (s.compact plan).cat (s.compact plan).tables ops := by rw [c1, t1]; exact hfit
-      obtain ⟨s', r1, r2, r3, r4, r5⟩ := data_history_exact ops _ w1 hd' hfit'
-      refine ⟨s', by simp only [run, step, stepUp]; exact r1, r2, r3.trans c1, r4.trans t1, ?_⟩
-      intro tid
-      rw [c1, t1] at r5
-      exact (r5 tid).trans (tidSpec_perm _ _ _ ops _ _ (p1 tid))
+      exact hmove (s.compact plan) rfl w1 c1 t1 (fun tid => by simp only [tidSpec]; exact p1 tid)
     | vacuum =>
       obtain ⟨w1, c1, t1, p1⟩ := vacuum_scan s wf
-      have hfit' : RowsFit s.vacuum.cat s.vacuum.tables ops := by rw [c1, t1]; exact hfit
-      obtain ⟨s', r1, r2, r3, r4, r5⟩ := data_history_exact ops _ w1 hd' hfit'
-      refine ⟨s', by simp only [run, step, stepUp]; exact r1, r2, r3.trans c1, r4.trans t1, ?_⟩
-      intro tid
-      rw [c1, t1] at r5
-      simp only [tidSpec]
-      rw [← p1 tid]
-      exact r5 tid
+      exact hmove s.vacuum rfl w1 c1 t1 (fun tid => by simp only [tidSpec]; rw [p1 tid])
     | create d => have := hd (.create d) (by simp); simp [Op.isData] at this
     | createView n => have := hd (.createView n) (by simp); simp [Op.isData] at this
     | createIndex n t => have := hd (.createIndex n t) (by simp); simp [Op.isData] at this
